@@ -32,6 +32,10 @@ def gen_cases(tier, seed):
                 near = ["on", "ON", "On ", " on", "Ramp", "Ramp "]
                 for j in range(min(len(descs), len(near)) if len(cases) % 2 else 0):
                     descs[j][1] = near[j]
+                if len(cases) % 4 == 2 and len(descs) > 1:
+                    # names that read like numbers, namely like the value of the neighbouring entry
+                    for j in range(len(descs)):
+                        descs[j][1] = str(descs[(j + 1) % len(descs)][0])
                 ops = []
                 for _ in range(12 if tier == "quick" else 60):
                     r = rng.randint(lo, hi)
@@ -59,7 +63,7 @@ def gen_cases(tier, seed):
                 for v in vals[:5]:
                     ops += [{"op": "setraw", "v": v}, {"op": "desc_get"}]
                 cases.append({"kind": kind, "t": t, "fn": fn, "fd": fd, "descs": descs, "bitdefs": [], "ops": ops,
-                              "fn_api": len(cases) % 2 == 1})
+                              "fn_api": len(cases) % 2 == 1, "arr_member": kind == "sdo" and len(cases) % 3 == 0})
     # bit fields: every contiguous range within the type's width, four spellings
     for kind in ("sdo", "pdo"):
         for w, t in UTYPES.items():
@@ -69,7 +73,8 @@ def gen_cases(tier, seed):
             rng.shuffle(ranges)
             for i in range(0, len(ranges), 25):
                 chunk = ranges[i:i + 25]
-                bitdefs = [[f"field{lo}_{hi}", list(range(lo, hi + 1))] for lo, hi in chunk]
+                names = {(lo, hi): f"Field {j}" for j, (lo, hi) in enumerate(chunk)}      # the same names on every variable, other bits
+                bitdefs = [[names[(lo, hi)], list(range(lo, hi + 1))] for lo, hi in chunk]
                 ops = []
                 for lo, hi in chunk:
                     n = hi - lo + 1
@@ -80,16 +85,16 @@ def gen_cases(tier, seed):
                     ops.append({"op": "setraw", "v": rng.getrandbits(w)})
                     for val in vals:
                         sp = rng.choice(spell)
-                        ops.append({"op": "bits_set", "bits": bits, "spelling": sp, "name": f"field{lo}_{hi}", "val": val})
+                        ops.append({"op": "bits_set", "bits": bits, "spelling": sp, "name": names[(lo, hi)], "val": val})
                         sp2 = rng.choice(spell)
-                        ops.append({"op": "bits_get", "bits": bits, "spelling": sp2, "name": f"field{lo}_{hi}"})
+                        ops.append({"op": "bits_get", "bits": bits, "spelling": sp2, "name": names[(lo, hi)]})
                     for sp in spell:
                         if rng.random() < 0.5:
                             ops.append({"op": "setdata", "v": rng.getrandbits(w), "how": rng.choice(["same", "other"])})
-                        ops.append({"op": "bits_get", "bits": bits, "spelling": sp, "name": f"field{lo}_{hi}"})
-                        ops.append({"op": "bits_set", "bits": bits, "spelling": sp, "name": f"field{lo}_{hi}", "val": rng.randrange(1 << n)})
+                        ops.append({"op": "bits_get", "bits": bits, "spelling": sp, "name": names[(lo, hi)]})
+                        ops.append({"op": "bits_set", "bits": bits, "spelling": sp, "name": names[(lo, hi)], "val": rng.randrange(1 << n)})
                 cases.append({"kind": kind, "t": t, "fn": 1, "fd": 1, "descs": [], "bitdefs": bitdefs, "ops": ops,
-                              "desc_defs": True})
+                              "desc_defs": True, "arr_member": kind == "sdo" and len(cases) % 3 == 0})
     # bit fields of signed variables (raw values of both signs, fields with and without the sign bit)
     for kind in ("sdo", "pdo"):
         for w, t in {8: 0x2, 16: 0x3, 32: 0x4}.items():
@@ -97,7 +102,8 @@ def gen_cases(tier, seed):
             ranges = rng.sample(ranges, 36 if tier == "quick" else min(len(ranges), 300)) + [(w - 1, w - 1), (0, w - 1), (0, 0)]
             for i in range(0, len(ranges), 13):
                 chunk = ranges[i:i + 13]
-                bitdefs = [[f"field{lo}_{hi}", list(range(lo, hi + 1))] for lo, hi in chunk]
+                names = {(lo, hi): f"Field {j}" for j, (lo, hi) in enumerate(chunk)}      # the same names on every variable, other bits
+                bitdefs = [[names[(lo, hi)], list(range(lo, hi + 1))] for lo, hi in chunk]
                 ops = []
                 for lo, hi in chunk:
                     n = hi - lo + 1
@@ -108,9 +114,9 @@ def gen_cases(tier, seed):
                         ops.append({"op": "setraw", "v": raw})
                         for val in sorted({0, 1, (1 << n) - 1, rng.randrange(1 << n)}):
                             ops.append({"op": "bits_set", "bits": bits, "spelling": rng.choice(spell),
-                                        "name": f"field{lo}_{hi}", "val": val})
+                                        "name": names[(lo, hi)], "val": val})
                             ops.append({"op": "bits_get", "bits": bits, "spelling": rng.choice(spell),
-                                        "name": f"field{lo}_{hi}"})
+                                        "name": names[(lo, hi)]})
                 cases.append({"kind": kind, "t": t, "fn": 1, "fd": 1, "descs": [], "bitdefs": bitdefs, "ops": ops,
                               "image": True})
     return cases
